@@ -56,9 +56,12 @@ class Spy:
 
     def __enter__(self):
         real, calls = self.real, self.calls
+        import threading
+        me = threading.get_ident()
 
         def spy(n, *args, **kwargs):  # signature-agnostic: the library may pass more than (node, errs)
-            calls.append(n)
+            if threading.get_ident() == me:     # (other threads' walks - mode T - are theirs)
+                calls.append(n)
             return real(n, *args, **kwargs)
 
         mvalidate.node = spy
